@@ -134,3 +134,181 @@ func execCtor(c ctorCase, _ core.Source) (res core.Result) {
 	res.Counts = map[string]int{"steps": r.Steps}
 	return
 }
+
+// ---------------------------------------------------------------- C04: a queue made from another collection
+
+// The values a queue is made from are its first additions, in the order the source lists them.  The source
+// stays a collection of its own: what the caller does to it afterwards -- in place or structurally -- is not an
+// addition to the queue, and what the queue delivers is not a removal from the source.
+type queueFromCase struct {
+	From string `json:"from"` // Array List Set Stack Queue
+	N    int    `json:"n"`
+}
+
+func execQueueFrom(c queueFromCase, _ core.Source) (res core.Result) {
+	n := lib.Notation()
+	vals := make([]int, c.N)
+	for i := range vals {
+		vals[i] = 3*i + 1
+	}
+	var src col.Sequential[int]
+	switch c.From {
+	case "Array":
+		src = col.Array[int](n).MakeFromArray(vals)
+	case "List":
+		src = col.List[int](n).MakeFromArray(vals)
+	case "Set":
+		src = col.Set[int](n).MakeFromArray(vals)
+	case "Stack":
+		st := col.Stack[int](n).MakeWithCapacity(uint(max(c.N, 1)))
+		for i := len(vals) - 1; i >= 0; i-- {
+			st.AddValue(vals[i])
+		}
+		src = st
+	default:
+		q0 := col.Queue[int](n).MakeWithCapacity(uint(max(c.N, 1)))
+		for _, v := range vals {
+			q0.AddValue(v)
+		}
+		src = q0
+	}
+	before := append([]int{}, src.AsArray()...)
+	desc := fmt.Sprintf("a Queue made from a %s of %d values", c.From, c.N)
+	var q col.QueueLike[int]
+	if p, payload := lib.Call(func() { q = col.Queue[int](n).MakeFromSequence(src) }); p {
+		res.Violation = core.Violate("C04/queue-from/panicked", "%s: MakeFromSequence panicked: %s", desc, lib.Short(payload))
+		return
+	}
+	// the caller goes on using its collection
+	switch s := src.(type) {
+	case col.ArrayLike[int]:
+		if c.N > 0 {
+			s.ReverseValues()
+			s.SetValue(1, -1)
+		}
+	case col.ListLike[int]:
+		if c.N > 0 {
+			s.SetValue(1, -1)
+			s.ReverseValues()
+		}
+		s.AppendValue(-2)
+		s.RemoveAll()
+	case col.SetLike[int]:
+		s.AddValue(-3)
+		s.RemoveAll()
+	case col.StackLike[int]:
+		if c.N > 0 {
+			s.RemoveTop()
+		}
+		s.RemoveAll()
+	case col.QueueLike[int]:
+		if c.N > 0 {
+			s.RemoveHead()
+		}
+		s.RemoveAll()
+	}
+	if got := q.AsArray(); !lib.EqInts(got, before) || q.GetSize() != c.N {
+		res.Violation = core.Violate("C04/queue-from/follows-its-source", "%s: after the caller changed that %s the queue lists %v (GetSize %d), it was made from %v", desc, c.From, got, q.GetSize(), before)
+		return
+	}
+	for k, want := range before {
+		v, ok := q.RemoveHead()
+		if !ok || v != want {
+			res.Violation = core.Violate("C04/queue-from/delivers-something-else", "%s: RemoveHead #%d returned (%d, %v), the value added at that place was %d", desc, k+1, v, ok, want)
+			return
+		}
+	}
+	if !q.IsEmpty() || q.GetSize() != 0 {
+		res.Violation = core.Violate("C04/queue-from/not-drained", "%s: after %d deliveries GetSize is %d", desc, c.N, q.GetSize())
+		return
+	}
+	// and the other way round: what a second queue delivers is not taken out of its source
+	src2 := col.List[int](n).MakeFromArray(vals)
+	q2 := col.Queue[int](n).MakeFromSequence(src2)
+	for range vals {
+		q2.RemoveHead()
+	}
+	q2.AddValue(-9)
+	if !lib.EqInts(src2.AsArray(), vals) {
+		res.Violation = core.Violate("C04/queue-from/source-follows-the-queue", "%s: draining the queue changed the List it was made from: %v", desc, src2.AsArray())
+		return
+	}
+	res.NonTrivial = c.N > 0
+	res.Classes = append(res.Classes, "from-"+c.From)
+	return
+}
+
+// ---------------------------------------------------------------- C13: a stack made from a queue that is in use
+
+// "No constructor produces a stack holding more values than its capacity" -- also when the sequence it reads is
+// a queue whose producer is in the middle of an AddValue (the value is listed, its token not yet sent: the queue
+// lists more values than it reports as its size).
+type stackFromQueueCase struct {
+	Cap    uint `json:"cap"`
+	Values int  `json:"values"`
+	Delay  int  `json:"delay"` // the builder starts when the producer has added this many values
+}
+
+func execStackFromQueue(c stackFromQueueCase, src core.Source) (res core.Result) {
+	n := lib.Notation()
+	q := col.Queue[int](n).MakeWithCapacity(c.Cap)
+	var size, listed int
+	var capacity uint
+	built, pushed := false, false
+	s := sched.New(src, false)
+	uninstall := s.Install()
+	defer uninstall()
+	var g *sched.G
+	builder := func() {
+		st := col.Stack[int](n).MakeFromSequence(q)
+		size, capacity, listed, built = st.GetSize(), st.GetCapacity(), len(st.AsArray()), true
+		if uint(size) >= capacity {
+			// a full stack refuses another value
+			p, _ := lib.Call(func() { st.AddValue(-1) })
+			pushed = !p
+		}
+	}
+	s.Go("producer", func() {
+		for i := 0; i < c.Values; i++ {
+			if i == c.Delay {
+				g = s.Go("builder", builder)
+			}
+			q.AddValue(i + 1)
+		}
+		if c.Delay >= c.Values {
+			g = s.Go("builder", builder)
+		}
+	})
+	r := s.Run()
+	desc := fmt.Sprintf("Stack.MakeFromSequence of a queue (capacity %d) whose producer adds %d values", c.Cap, c.Values)
+	if g == nil {
+		return
+	}
+	if g.Panic != nil {
+		if uint(c.Values) > col.Stack[int](n).DefaultCapacity() {
+			res.Classes = append(res.Classes, "constructor-refused")
+			return
+		}
+		res.Violation = core.Violate("C13/ctor/panic", "%s panicked: %s", desc, lib.Short(g.Panic))
+		return
+	}
+	if !built {
+		return
+	}
+	if uint(size) > capacity || listed != size {
+		res.Violation = core.Violate("C13/size-exceeds-capacity", "%s returned a stack holding %d values (array view: %d) with capacity %d", desc, size, listed, capacity)
+		return
+	}
+	if pushed {
+		res.Violation = core.Violate("C13/push-on-full-returned", "%s returned a full stack (%d of %d) that accepted another value", desc, size, capacity)
+		return
+	}
+	res.NonTrivial = size > 0
+	if r.AnyBlocked {
+		res.Classes = append(res.Classes, "producer-blocked")
+	}
+	if uint(size) == capacity {
+		res.Classes = append(res.Classes, "full-stack")
+	}
+	return
+}
